@@ -189,7 +189,8 @@ def main(chk: core.Check) -> int:
     chk.assumptions += ["theorems are over the reals; IEEE rounding, libm and vector's coordinate conversions are outside the model and are compared through the correspondence with tolerance 1e-9",
                         "hand-written model Model/Helix.lean mirrors helix.py after the fix: commits"]
     hc.regen(chk)
-    chk.prove(modules=["C13", "HelixTie2"])
+    _entry = ["EntryTie"] if core.regen_entry(chk) else []
+    chk.prove(modules=["C13", "HelixTie2"] + _entry)
     try:
         mism = run(chk, n)
         chk.coverage["traces_validated_against_impl"] = n
